@@ -178,6 +178,31 @@ func c15Sectors(c *Ctx) *RuleResult {
 				if sel, ok := ast.Unparen(call.Fun).(*ast.SelectorExpr); ok && sel.Sel.Name == "FreeContiguous" && len(call.Args) >= 1 && exprStr(call.Args[0]) == key {
 					return 1
 				}
+				// a helper of the package that frees the sectors passed to it on all of its paths
+				if fn := calleeOf(info, call); fn != nil {
+					if fd := p.Decl(fn); fd != nil && fd.Body != nil {
+						for ai, a := range call.Args {
+							if exprStr(a) != key {
+								continue
+							}
+							pname := paramNameAt(fd, ai)
+							if pname == "" {
+								continue
+							}
+							g := NewFuncCFG(p.InfoFor(fd), fd.Body)
+							if g.EveryPathPasses(func(m ast.Node) bool {
+								hc, ok := m.(*ast.CallExpr)
+								if !ok {
+									return false
+								}
+								hs, ok := ast.Unparen(hc.Fun).(*ast.SelectorExpr)
+								return ok && hs.Sel.Name == "FreeContiguous" && len(hc.Args) >= 1 && exprStr(hc.Args[0]) == pname
+							}) {
+								return 1
+							}
+						}
+					}
+				}
 				return 0
 			},
 			ExitOK: func(ret *ast.ReturnStmt, key string) bool { return lastResultIsNil(ret) },
